@@ -43,7 +43,7 @@ V08(o) == IF o.obs.result # "ok" THEN "not-ok"
 
 Verdict(o) == CASE Prop = "C02" -> V02(o) [] Prop = "C04" -> V04(o) [] Prop = "C06" -> V06(o) [] Prop = "C08" -> V08(o)
 \* drift: the real tiling / summary differs from the mechanism layer although the abstract predicate holds
-Drift(o) == \/ (Prop = "C08" /\ o.obs.result = "ok" /\ o.scale = 1 /\ o.obs.zooms # o.mz)
+Drift(o) == \/ (Prop = "C08" /\ o.obs.result = "ok" /\ o.opts.zmode = "manual" /\ o.scale = 1 /\ o.obs.zooms # o.mz)
             \/ (Prop = "C06" /\ o.obs.result = "ok" /\ o.obs.summary.int = 1 /\ o.obs.summary.bases > 0
                 /\ [f \in {"bases", "sum", "sumsq", "min", "max"} |-> o.obs.summary[f]] # [f \in {"bases", "sum", "sumsq", "min", "max"} |-> o.msum[f]])
 Post == /\ \A i \in 1..Len(Obs) : LET v == Verdict(Obs[i]) IN
